@@ -159,6 +159,18 @@ def main(run):
     P = mir.Program(F)
     ctx, site_results = sites.check(run, P, 'C04')
     gate(run, P, ctx)
+    # D0: the two splice primitives behave as the window / closure engines assume
+    from .. import copyloop
+    probs, d0 = copyloop.analyse(P)
+    run.cov['d0_paths'] = d0.get('paths', 0)
+    run.cov['d0_loop_bodies'] = d0.get('loop_bodies', 0)
+    ab = P.body('utils::allocate_range')
+    for pr in probs:
+        run.violation(f'd0|allocate_range|{pr[:70]}', f'{P.where(ab) if ab else "utils.rs"} utils::allocate_range: {pr} — every splice of every mutator goes through this function')
+    rb = P.body('utils::replace')
+    for pr in copyloop.replace_shape(P):
+        run.violation(f'd0|replace|{pr[:70]}', f'{P.where(rb) if rb else "utils.rs"} utils::replace: {pr}')
+    run.floor('d0_loop_bodies', 2, 'copy loops of allocate_range analysed')
     st = setcheck.check_all(run, None, P, ctx, run.tier)
     insertion_points(run, P)
     predicate_models(run, P)
